@@ -11,6 +11,7 @@ import (
 	"sort"
 	"strings"
 	"time"
+	"verifharness/internal/crashlab"
 
 	"github.com/ryogrid/SamehadaDB/lib/types"
 
@@ -62,7 +63,7 @@ func init() {
 
 type sessTable struct {
 	nextID                int32 // ids are per table (1, 2, ...), so that joins on id match across tables
-	rebuiltByCrashRestart bool // an index of this table was rebuilt by a crash-type restart
+	rebuiltByCrashRestart bool  // an index of this table was rebuilt by a crash-type restart
 	t                     *rm.Table
 	decl                  string // declared name (may differ in case)
 	via                   string
@@ -140,14 +141,21 @@ func (s *sess) open(record bool) bool {
 	if record {
 		get = rec.Install()
 	}
-	msg, panicked := guarded(func() { s.db = sqlx.Open(s.path, s.memKB, sqlx.Options{File: true}) })
+	db, failure, hung := crashlab.OpenWithTimeout(s.path, s.memKB)
+	s.db = db
 	if record {
 		rec.Uninstall()
 		s.rc = get()
 	}
-	if panicked {
+	if hung {
 		s.dead = true
-		s.res.Violate("restart-panic", s.tags, s.desc("reopen"), "opening the database panicked: %s", msg)
+		s.res.RestartChild = true
+		s.res.Violate("restart-hang", s.tags, s.desc("reopen"), "opening the database: %s", failure)
+		return false
+	}
+	if failure != "" {
+		s.dead = true
+		s.res.Violate("restart-panic", s.tags, s.desc("reopen"), "opening the database: %s", failure)
 		return false
 	}
 	s.snaps = nil
